@@ -195,4 +195,15 @@ example : (match lexAll (B "`SAFE_CAST`") with
     | .ok ts => decide (NoCastIdent ts)
     | _ => true) = false := by decide +kernel
 
+/-- Task E, stage 1: CASE (operand, two clauses, ELSE; keywords in lower case are printed in upper case) and IF -/
+example : rtCheck (B "case a when 1 then - 1 when b.c then x[0] else IF ( p , q OR r , NULL ) end IS NOT NULL")
+    (B "CASE a WHEN 1 THEN -1 WHEN b.c THEN x[0] ELSE IF(p, q OR r, NULL) END IS NOT NULL") = true := by decide +kernel
+example : rtCheck (B "- CASE WHEN a THEN 'x' END . f") (B "-CASE WHEN a THEN \"x\" END.f") = true := by decide +kernel
+
+/-- Task E, stage 2: array literals (nested, empty) under a keyword subscript -/
+example : rtCheck (B "[ 1,a+2 ,[ ] ] [offset(0)]") (B "[1, a + 2, []][OFFSET(0)]") = true := by decide +kernel
+
+/-- Task E, stage 3: CAST to a named type -/
+example : rtCheck (B "cast( x+1 as `a b` . c ) [0]") (B "CAST(x + 1 AS `a b`.c)[0]") = true := by decide +kernel
+
 end MF.Props.C01
